@@ -228,6 +228,13 @@ class Sim(object):
 
     def close(self):
         for inst in self.instances:
+            eng = inst.engine
+            for name in ("asl_store", "executions", "execution_history"):
+                st = getattr(eng, name, None) if eng is not None else None
+                if st is not None and hasattr(st, "tracker_id"):
+                    # Redis-backed stores (over the fake server): their destructor's stop() would run at interpreter
+                    # shutdown, when the pub/sub object is already gone, and only make noise; the listener threads are daemons
+                    st.tracker_id = None
             close_loop(inst.loop)
             inst.loop = None
         if self.tmpdir:
